@@ -554,3 +554,11 @@ Proof. intros. apply leading_zeroes_w; assumption. Qed.
 Theorem trailing_zeroes_correct : forall m off n, slice_ok m off n -> bytes_ok m ->
   trailing_zeroes m off n = Ok (count_trailing (window m off n)).
 Proof. intros. apply trailing_zeroes_w; assumption. Qed.
+
+(* the statement skeletons (one hex digit per statement: loops, ifs, assignments, returns and the
+   blocks they sit in) of the three functions the models were written against; an added guard, a
+   dropped return or a reordered statement in the Go source changes the generated number *)
+Lemma mbits_shapes :
+  zero_shape = 264402497196482518863 /\ lz_shape = 4436240037567050939655688015 /\
+  tz_shape = 290713620061365655674598819008335.
+Proof. repeat split; reflexivity. Qed.
